@@ -238,3 +238,119 @@ void h_swap(void)
     ASSERT(frame(B(p1) | B(t2) | B(p2) | B(t1), B(h2) | B(n1) | B(h1) | B(n2)), "swap: nothing else written (inner links of both sections kept)");
     VERIF_CANARY();
 }
+
+/* ==================== singly linked list on an arbitrary heap ====================
+   Pool of NS nodes with arbitrary next links (pool node or null) and two list headers.  The list invariant is used in its
+   local form: for a node x on the chain of a list,  x->next == NULL  <=>  x == tail   (a chain has exactly one last node and
+   the tail designates it; for the head sentinel: empty <=> tail == &head).  Each primitive gets that equivalence for the
+   chain nodes it is handed, and must produce the specified links, the equivalence for the nodes whose status changed, and
+   leave every other field alone. */
+#include "a/slist.h"
+#define NS 6
+static a_slist_node s0, s1, s2, s3, s4, s5;
+static a_slist SL, SM;
+static a_slist_node *const S[NS + 3] = {&s0, &s1, &s2, &s3, &s4, &s5, A_NULL, &SL.head, &SM.head};
+#define SNULL NS
+#define SLH (NS + 1)
+#define SMH (NS + 2)
+static unsigned SX[NS + 3]; /* pre-state next (index into S) */
+static unsigned TL, TM;     /* pre-state tails */
+static void sheap(void)
+{
+    unsigned k;
+    for (k = 0; k < NS + 3; ++k)
+    {
+        if (k != SNULL)
+        {
+            ND(unsigned, nx, u32);
+            ASSUME(nx <= SNULL);
+            SX[k] = nx; S[k]->next = S[nx];
+        }
+    }
+    { ND(unsigned, tl, u32); ND(unsigned, tm, u32);
+      ASSUME((tl < NS || tl == SLH) && (tm < NS || tm == SMH));
+      TL = tl; TM = tm; SL.tail = S[tl]; SM.tail = S[tm]; }
+}
+/* x is a node of L's chain: it is the last one exactly when it is the tail */
+#define ONL0(x) ((SX[x] == SNULL) == ((x) == TL))
+#define ONM0(x) ((SX[x] == SNULL) == ((x) == TM))
+static int sframe(unsigned wnext, int wtl, int wtm)
+{
+    unsigned k; int ok = 1;
+    for (k = 0; k < NS + 3; ++k) { if (k != SNULL && !((wnext >> k) & 1) && S[k]->next != S[SX[k]]) { ok = 0; } }
+    if (!wtl && SL.tail != S[TL]) { ok = 0; }
+    if (!wtm && SM.tail != S[TM]) { ok = 0; }
+    return ok;
+}
+void h_slist(void)
+{
+    sheap();
+    ND(unsigned, op, u32); ND(unsigned, pv, u32); ND(unsigned, x, u32);
+    ASSUME(op < 6 && (pv < NS || pv == SLH) && x < NS);
+    unsigned nx = SX[pv];
+    if (op == 0 || op == 1)
+    {
+        /* add behind prev (a node of L's chain or its head sentinel); the new node is not on the chain */
+        if (op == 1) { ASSUME(pv == SLH); }
+        ASSUME(ONL0(pv) && x != pv && x != TL && x != nx);
+        if (op == 0) { a_slist_add(&SL, S[pv], S[x]); } else { a_slist_add_head(&SL, S[x]); }
+        ASSERT(S[pv]->next == S[x] && S[x]->next == S[nx], "slist add: the node is linked between prev and its old successor");
+        ASSERT(SL.tail == (nx == SNULL ? S[x] : S[TL]) && (SL.tail->next == A_NULL) == (nx == SNULL || SX[TL] == SNULL), "slist add: the tail moves to the node exactly when it was appended behind the last node");
+        ASSERT(sframe(B(pv) | B(x), 1, 0), "slist add: nothing else written");
+    }
+    else if (op == 2)
+    {
+        ASSUME(SX[TL] == SNULL && x != TL);
+        a_slist_add_tail(&SL, S[x]);
+        ASSERT(S[TL]->next == S[x] && S[x]->next == A_NULL && SL.tail == S[x], "slist add_tail: appended behind the old last node, the tail designates it");
+        ASSERT(sframe(B(TL) | B(x), 1, 0), "slist add_tail: nothing else written");
+    }
+    else if (op == 3 || op == 4)
+    {
+        /* remove the node behind prev, if any */
+        if (op == 4) { ASSUME(pv == SLH); }
+        ASSUME(ONL0(pv));
+        if (nx != SNULL) { ASSUME(ONL0(nx) && nx != pv); }
+        if (op == 3) { a_slist_del(&SL, S[pv]); } else { a_slist_del_head(&SL); }
+        if (nx == SNULL) { ASSERT(sframe(0, 0, 0), "slist del: nothing behind prev, nothing changes"); }
+        else
+        {
+            ASSERT(S[pv]->next == S[SX[nx]], "slist del: prev is linked to the successor of the removed node");
+            ASSERT(SL.tail == (nx == TL ? S[pv] : S[TL]) && (nx != TL || S[pv]->next == A_NULL), "slist del: the tail moves back to prev exactly when the last node was removed");
+            ASSERT(sframe(B(pv), 1, 0), "slist del: nothing else written (the removed node keeps its stale link)");
+        }
+    }
+    else
+    {
+        /* rotate: the first node becomes the last */
+        unsigned f = SX[SLH];
+        ASSUME(ONL0(SLH) && SX[TL] == SNULL);
+        if (f != SNULL) { ASSUME(ONL0(f)); }
+        a_slist_rot(&SL);
+        if (f == SNULL || SX[f] == SNULL) { ASSERT(sframe(0, 0, 0), "slist rot: an empty or one-node list is its own rotation"); }
+        else
+        {
+            ASSERT(SL.head.next == S[SX[f]] && S[TL]->next == S[f] && S[f]->next == A_NULL && SL.tail == S[f], "slist rot: the first node is re-linked behind the old last node and becomes the tail");
+            ASSERT(sframe(B(SLH) | B(TL) | B(f), 1, 0), "slist rot: nothing else written");
+        }
+    }
+    VERIF_CANARY();
+}
+void h_slist_mov(void)
+{
+    sheap();
+    ND(unsigned, at, u32);
+    ASSUME(at < NS || at == SLH);
+    unsigned f = SX[SMH], an = SX[at];
+    /* M is a well-formed list; at is a node of L's chain (or its sentinel) and not a node of M */
+    ASSUME(ONM0(SMH) && SX[TM] == SNULL && ONL0(at) && at != TM);
+    a_slist_mov(&SM, &SL, S[at]);
+    if (f == SNULL) { ASSERT(sframe(0, 0, 0), "slist mov: moving an empty list changes nothing"); }
+    else
+    {
+        ASSERT(S[at]->next == S[f] && S[TM]->next == S[an], "slist mov: the whole chain is spliced in behind at, its last node linked to at's old successor");
+        ASSERT(SL.tail == (an == SNULL ? S[TM] : S[TL]) && (an != SNULL || SL.tail->next == A_NULL), "slist mov: the tail moves to the moved chain's last node exactly when it was appended at the end");
+        ASSERT(sframe(B(at) | B(TM), 1, 0), "slist mov: nothing else written (the source header keeps stale links)");
+    }
+    VERIF_CANARY();
+}
